@@ -238,12 +238,24 @@ func runWalkMulti(c *core.Ctx) {
 		}
 		n++
 		ok, why := false, "no range over errbase.UnwrapMulti(node) with a recursive call on the element"
-		// the walk may sit in an unexported helper of the walker (which then recurses into the walker or into itself)
+		// the walk may sit in an unexported helper of the walker (which then recurses into the walker or into itself).
+		// EVERY place where the walker looks at a node's branches must walk them: a second range that only inspects the
+		// branch heads (comparing their marks, say) misses what sits deeper in a branch
+		nRanges, nBad := 0, 0
 		regionOf(fn, um).each(func(in ssa.Instruction) {
 			call, isCall := in.(*ssa.Call)
 			if !isCall || sx.Callee(call) != um {
 				return
 			}
+			nRanges++
+			okBefore := ok
+			ok = false
+			defer func() {
+				if !ok {
+					nBad++
+				}
+				ok = ok || okBefore
+			}()
 			arg := call.Call.Args[0]
 			if w.loopVar {
 				ph, isPhi := arg.(*ssa.Phi)
@@ -271,6 +283,12 @@ func runWalkMulti(c *core.Ctx) {
 				why = "branches are not visited in forward order"
 			}
 		})
+		if nBad > 0 && ok {
+			ok = false
+			if !strings.Contains(why, "not") || why == "no range over errbase.UnwrapMulti(node) with a recursive call on the element" {
+				why = fmt.Sprintf("%d of the %d places where the walker reads a node's branches do not walk them recursively (they look at the branch heads only)", nBad, nRanges)
+			}
+		}
 		c.Check(ok, name, fn.Pos(), "forward range over UnwrapMulti(node), recursive call per element", why)
 	}
 	// EncodeError → encodeLeaf(…, UnwrapMulti(err)) → range causes → EncodeError
